@@ -17,6 +17,7 @@ package gnet
 import (
 	"hash/crc32"
 	"net"
+	"sync/atomic"
 
 	"github.com/panjf2000/gnet/v2/pkg/bs"
 )
@@ -48,8 +49,9 @@ type (
 
 	// baseLoadBalancer with base lb.
 	baseLoadBalancer struct {
-		eventLoops []*eventloop
-		size       int
+		// eventLoops is replaced as a whole by register, the Engine that OnBoot
+		// hands out may be used while the event-loops are still being added.
+		eventLoops atomic.Pointer[[]*eventloop]
 	}
 
 	// roundRobinLoadBalancer with Round-Robin algorithm.
@@ -71,24 +73,36 @@ type (
 
 // ==================================== Implementation of base load-balancer ====================================
 
+// loops returns the current list of event-loops.
+func (lb *baseLoadBalancer) loops() []*eventloop {
+	if p := lb.eventLoops.Load(); p != nil {
+		return *p
+	}
+	return nil
+}
+
 // register adds a new eventloop into load-balancer.
 func (lb *baseLoadBalancer) register(el *eventloop) {
-	el.idx = lb.size
-	lb.eventLoops = append(lb.eventLoops, el)
-	lb.size++
+	old := lb.loops()
+	el.idx = len(old)
+	loops := make([]*eventloop, len(old)+1)
+	copy(loops, old)
+	loops[len(old)] = el
+	lb.eventLoops.Store(&loops)
 }
 
 // index returns the eligible eventloop by index.
 func (lb *baseLoadBalancer) index(i int) *eventloop {
-	if i >= lb.size {
+	loops := lb.loops()
+	if i >= len(loops) {
 		return nil
 	}
-	return lb.eventLoops[i]
+	return loops[i]
 }
 
 // iterate iterates all the eventloops.
 func (lb *baseLoadBalancer) iterate(f func(int, *eventloop) bool) {
-	for i, el := range lb.eventLoops {
+	for i, el := range lb.loops() {
 		if !f(i, el) {
 			break
 		}
@@ -97,14 +111,15 @@ func (lb *baseLoadBalancer) iterate(f func(int, *eventloop) bool) {
 
 // len returns the length of event-loop list.
 func (lb *baseLoadBalancer) len() int {
-	return lb.size
+	return len(lb.loops())
 }
 
 // ==================================== Implementation of Round-Robin load-balancer ====================================
 
 // next returns the eligible event-loop based on Round-Robin algorithm.
 func (lb *roundRobinLoadBalancer) next(_ net.Addr) (el *eventloop) {
-	el = lb.eventLoops[lb.nextIndex%uint64(lb.size)]
+	loops := lb.loops()
+	el = loops[lb.nextIndex%uint64(len(loops))]
 	lb.nextIndex++
 	return
 }
@@ -112,9 +127,10 @@ func (lb *roundRobinLoadBalancer) next(_ net.Addr) (el *eventloop) {
 // ================================= Implementation of Least-Connections load-balancer =================================
 
 func (lb *leastConnectionsLoadBalancer) next(_ net.Addr) (el *eventloop) {
-	el = lb.eventLoops[0]
+	loops := lb.loops()
+	el = loops[0]
 	minN := el.countConn()
-	for _, v := range lb.eventLoops[1:] {
+	for _, v := range loops[1:] {
 		if n := v.countConn(); n < minN {
 			minN = n
 			el = v
@@ -137,5 +153,6 @@ func (*sourceAddrHashLoadBalancer) hash(s string) int {
 // next returns the eligible event-loop by taking the remainder of a hash code as the index of event-loop list.
 func (lb *sourceAddrHashLoadBalancer) next(netAddr net.Addr) *eventloop {
 	hashCode := lb.hash(netAddr.String())
-	return lb.eventLoops[hashCode%lb.size]
+	loops := lb.loops()
+	return loops[hashCode%len(loops)]
 }
